@@ -501,6 +501,23 @@ def rowViolation (run : Run) (r : Row) : Option String :=
     if !(names.zip (names.drop 1)).all (fun (a, b) => strOfBytes a < strOfBytes b) then some "protein_list_not_sorted_set" else
     -- modifications
     if !modsConfigured cfg p then some "modification_not_configured" else
+    -- a mass that is configured ONLY under a protein-terminus key (`[` / `]`, with or without a residue) may appear
+    -- only on a peptide that has an occurrence at that terminus of one of its listed proteins
+    let atProtN := names.any (fun n => match lookup n with | some s => startsWith s targetSeq | none => false)
+    let atProtC := names.any (fun n => match lookup n with
+      | some s => s.drop (s.length - targetSeq.length) == targetSeq | none => false)
+    let onlyUnder (q : Rat) (prot : List UInt8 → Bool) (other : List UInt8 → Bool) : Bool :=
+      (configuredMasses cfg prot).any (denotesF32 q) && !((configuredMasses cfg other).any (denotesF32 q))
+    let firstR := seq.head?.getD 0
+    let lastR := seq.getLast?.getD 0
+    let nMass : List Rat := p.nterm.toList ++ ((p.residues.head?.bind (·.2)).toList.filter fun q =>
+      !((configuredMasses cfg (fun k => keyIsResidue k firstR)).any (denotesF32 q)))
+    let cMass : List Rat := p.cterm.toList ++ ((p.residues.getLast?.bind (·.2)).toList.filter fun q =>
+      !((configuredMasses cfg (fun k => keyIsResidue k lastR)).any (denotesF32 q)))
+    if !atProtN && nMass.any (fun q => onlyUnder q (fun k => k == [91] || k == [91, firstR]) (fun k => k == [94] || k == [94, firstR]))
+      then some "protein_n_terminal_modification_on_other_peptide" else
+    if !atProtC && cMass.any (fun q => onlyUnder q (fun k => k == [93] || k == [93, lastR]) (fun k => k == [36] || k == [36, lastR]))
+      then some "protein_c_terminal_modification_on_other_peptide" else
     if !staticsPresent cfg p then some "static_modification_missing" else
     -- calcmass
     if !f32finite r.calcmass || !f32finite r.expmass || !f32finite r.isotopeError then some "mass_not_finite" else
